@@ -140,7 +140,7 @@ PLANS['C16'] = {
 
 PLANS['C09'] = {
     'level': 'model_checking', 'tv_spec': 'TV_API',
-    'run': api_runner({'quick': [('scale', 16, 40, 12), ('scalerbare', 4, 60, 4)],
+    'run': api_runner({'quick': [('scale', 16, 40, 12), ('scalerbare', 4, 60, 4), ('mods2', 10, 30, 4)],
                        'thorough': [('scale', 200, 40, 16), ('scalerbare', 30, 100, 16), ('certscaled', 100, 3, 8)]}),
 }
 
@@ -237,6 +237,8 @@ def lu_runner(mode, sizes, env_extra=None, tag='tv'):
         nexec, ln, shards = sizes[ctx['tier']]
         for k, v in (env_extra or {}).get(ctx['tier'], {}).items(): os.environ[k] = v
         jobs = [((mode, ctx['seed'] * 100003 + sh * 7919 + 1, nexec, ln), os.path.join(ctx['rundir'], 'lu-%d.ndjson' % sh)) for sh in range(shards)]
+        if mode == 'real':   # long update sequences without refactorization (fills the row/column files of U)
+            jobs += [(('stress', ctx['seed'] * 100003 + sh * 7919 + 5, max(8, nexec // 2), ln), os.path.join(ctx['rundir'], 'lustress-%d.ndjson' % sh)) for sh in range(shards)]
         traces = _drive(ctx, bdir, 'lu_drv', jobs)
         s = ctx['validate_traces']('TV_LU', traces, tvenv={'LUMODE': mode}, tag=tag)
         ctx['log']('TV: %d events validated, %d violations, %d known, %d infra' % (s['events'], len(s['violations']), len(s['known']), len(s['infra'])))
